@@ -13,7 +13,7 @@ import (
 	"go.etcd.io/bbolt/verifh/gen"
 )
 
-const c13Rule = "one generated logical history is executed under 2-3 generated option schedules (an assignment of freelist backend, NoFreelistSync, page size at creation, InitialMmapSize, NoGrowSync, Mlock when permitted, StrictMode, NoStatistics to EVERY open of the file, plus interposed read-only opens with and without PreLoadFreelist); every API result of every schedule must equal the model's (hence each other's), dumps are compared at every commit, and after every open and commit the free list (persisted, or rebuilt by scanning) must equal the unreachable set computed by the independent decoder. Non-trivial = >=2 schedules that differ in backend and in freelist sync at some open, across >=1 reopen, on a history that freed pages. Distinct = SHA-256 of (op log, schedules)."
+const c13Rule = "one generated logical history (incl. readers and commits that fail on an armed I/O fault) is executed under 2-3 generated option schedules (an assignment of freelist backend, NoFreelistSync, page size at creation, InitialMmapSize, NoGrowSync, Mlock when permitted, StrictMode, NoStatistics to EVERY open of the file, plus interposed read-only opens with and without PreLoadFreelist); every API result of every schedule must equal the model's (hence each other's), dumps are compared at every commit, and after every open and commit the free list (persisted, or rebuilt by scanning) must equal the unreachable set computed by the independent decoder. Non-trivial = >=2 schedules that differ in backend and in freelist sync at some open, across >=1 reopen, on a history that freed pages. Distinct = SHA-256 of (op log, schedules)."
 
 var (
 	mlockOnce sync.Once
@@ -109,6 +109,12 @@ func c13Install(e *drv.Env) {
 		_, v := checkAccounting(e, "after open")
 		return v
 	}
+	// commits that fail on an armed I/O fault: every option schedule must still behave per model
+	e.AllowCommitErr = true
+	e.AfterFailure = func(e *drv.Env, err error) *drv.Violation {
+		e.Label("failed-commit")
+		return failureOracle(e, err)
+	}
 }
 
 type c13Doc struct {
@@ -126,6 +132,7 @@ func TestC13(t *testing.T) {
 		cfg.Cursors = false
 		cfg.MaxReaders = 2
 		cfg.ReopenWeight = 20
+		cfg.Faults = 5
 		c13Install(e)
 		fail0 := func(v *drv.Violation) {
 			drv.SetFailing()
